@@ -28,6 +28,7 @@ PROP = dict(
                dict(fn=MS + "replace", rt_skip=True),
                dict(fn=MS + "replace_last", rt_skip=True),
                dict(fn=MS + "insert_one", contract_key=MS + "insert_one:new", rt_skip=True),
+               dict(fn=MS + "insert_one", contract_key=MS + "insert_one:existing", rt_skip=True),
                dict(fn=MS + "_get_event", rt_skip=True),
                dict(fn=MS + "get_event", rt_skip=True),
                dict(fn=MS + "get_eventcount", rt_skip=True),
@@ -56,4 +57,6 @@ MUTANTS = [
     (F, '            WHERE bucketrow = (SELECT rowid FROM buckets WHERE id = ?) AND id = ?\n            LIMIT 1', '            WHERE id = ?\n            LIMIT 1', True),   # get_event ignores bucket
     (F, '            event_rows.append((bucket_id, starttime, endtime, datastr))', '            event_rows.append((bucket_id, starttime, starttime, datastr))', True),   # bulk insert stores zero duration
     (F, '        self.conditional_commit(len(event_rows))', '        self.conditional_commit(len(events))', False),   # over-counting statements is harmless for contents
+    (FM, '        if event.id is not None:\n            self.replace(bucket, event.id, event)', '        if event.id is not None:\n            self.replace(bucket, event.id + 1, event)', True),   # memory: an upsert rewrites the event with the next id
+    (FM, '        if event.id is not None:\n            self.replace(bucket, event.id, event)', '        if event.id is not None:\n            self.db[bucket].append(event)', True),   # memory: an upsert appends the caller's own event
 ]
